@@ -310,4 +310,19 @@ theorem exec_eq_boot_run (f : Bool) (kinds : List Kind) (ops : List Op) :
     exec f kinds ops = ((run f (boot f kinds).1 ops).1, (boot f kinds).2 ++ (run f (boot f kinds).1 ops).2) := by
   simp [boot, exec, history, run_append, run, List.append_assoc]
 
+/-- the immediate answers to the probe are support answers, never notifications -/
+theorem svcRetired_mem_history (kinds : List Kind) (ops : List Op) (i : Nat) :
+    Op.svcRetired i ∈ history kinds ops ↔ Op.svcRetired i ∈ ops := by
+  have aux : ∀ (l : List Kind) (off : Nat), Op.svcRetired i ∉ autoAcks off l := by
+    intro l
+    induction l with
+    | nil => intro off; simp [autoAcks]
+    | cons k rest ih => intro off; cases k <;> simp [autoAcks, ih]
+  simp [history, aux]
+
+theorem exec_snoc (f : Bool) (kinds : List Kind) (ops : List Op) (o : Op) :
+    exec f kinds (ops ++ [o]) =
+      ((step f (exec f kinds ops).1 o).1, (exec f kinds ops).2 ++ (step f (exec f kinds ops).1 o).2) := by
+  simp [exec, history, ← List.append_assoc, run_append, run]
+
 end Cell2v.NodeCtrl
